@@ -163,6 +163,12 @@ def all_scenarios():
         Scn("tls13-nocompress", T13, kx="tls13", c={"certificate_compression_receive": [], "certificate_compression_send": []},
             s={"certificate_compression_receive": [], "certificate_compression_send": []}),
         Scn("tls13-clientauth", T13, kx="tls13", ckw={"certChain": "client_rsa"}, skw={"reqCert": True}),
+        Scn("tls13-clientauth-nocompress", T13, kx="tls13", ckw={"certChain": "client_rsa"}, skw={"reqCert": True},
+            c={"certificate_compression_receive": [], "certificate_compression_send": []},
+            s={"certificate_compression_receive": [], "certificate_compression_send": []}),
+        Scn("tls13-reqcert-nocert", T13, kx="tls13", skw={"reqCert": True},
+            c={"certificate_compression_receive": [], "certificate_compression_send": []},
+            s={"certificate_compression_receive": [], "certificate_compression_send": []}),
         Scn("tls12-clientauth", T12, kx="ecdhe_rsa", ckw={"certChain": "client_rsa"}, skw={"reqCert": True}),
         Scn("tls12-rsa", T12, c={"keyExchangeNames": ["rsa"]}, kx="rsa"),
         Scn("tls12-dhe", T12, c={"keyExchangeNames": ["dhe_rsa"]}, kx="dhe_rsa"),
@@ -246,14 +252,16 @@ def install_mutation(conn, target, desc, ctxm, applied):
     """replace the target-th message this endpoint sends by its mutation"""
     from harness import lab
     st = {"n": 0}
+    targets = target if isinstance(target, dict) else {target: desc}
 
     def fn(kind, msg):
         if is_flush(st, kind, msg):
             return [msg]
         i = st["n"]
         st["n"] += 1
-        if i != target:
+        if i not in targets:
             return [msg]
+        desc = targets[i]
         data = bytes(msg.write())
         applied["orig"] = data
         applied["ctype"] = msg.contentType
